@@ -71,12 +71,13 @@ func Main() {
 	grp("mconn-empty-messages", r.N(20, 500), core.Opts{Workers: 8}, emptyMessages)
 	grp("mconn-oversize", r.N(80, 8000), core.Opts{Workers: 16}, oversizeCase)
 	grp("mconn-stop-race", r.N(120, 12000), core.Opts{Workers: 64}, stopRaceCase) // wall time here is the 10 s send timeout of the code under test, not CPU
+	grp("mconn-double-failure", r.N(60, 3000), core.Opts{Workers: 8}, doubleFailure)
 	grp("mconn-garbage", r.N(8, 400)*len(garbageClasses), child, garbageCase)
 	// the concurrent workloads again under the race detector (child processes of the -race binary)
 	race := core.Opts{Procs: 8, Workers: 4, Race: true, StallSec: 300, Env: []string{"GORACE=halt_on_error=1"}}
-	grp("race-stream-concurrent-writers", r.N(40, 3000), race, concurrentWriters)
-	grp("race-mconn-traffic", r.N(60, 5000), race, trafficRandom)
-	grp("race-mconn-stop", r.N(48, 4000), race, stopRaceCase)
+	grp("race-stream-concurrent-writers", r.N(40, 800), race, concurrentWriters)
+	grp("race-mconn-traffic", r.N(60, 1200), race, trafficRandom)
+	grp("race-mconn-stop", r.N(48, 800), race, stopRaceCase)
 
 	if !r.IsChild() {
 		// the fault-enumeration sub-check: what was enumerated, and that all of it ran
@@ -136,6 +137,7 @@ func Main() {
 			r.Floor("mconn_stop_race_accepted_but_lost_legitimately", 100)
 			r.Floor("porcupine_checks", 200)
 			r.Floor("garbage_rejected_with_error", 40)
+			r.Floor("mconn_double_failures", 40)
 			r.Floor("cases_under_race_detector", 120)
 		}
 	}
